@@ -2,6 +2,7 @@
 package stringutil
 
 import (
+	"slices"
 	"strings"
 	"unicode"
 	"unicode/utf8"
@@ -25,7 +26,15 @@ func ContainsFold(s, substr string) (ok bool) {
 	}
 
 	first, _ := utf8.DecodeRuneInString(substr)
-	firstFolded := unicode.SimpleFold(first)
+
+	// Collect all other runes that are equal to first under simple case
+	// folding.  There may be more than one of them, e.g. 'K', 'k', and
+	// '\u212a' (Kelvin sign).
+	var foldsArr [4]rune
+	folds := foldsArr[:0]
+	for r := unicode.SimpleFold(first); r != first; r = unicode.SimpleFold(r) {
+		folds = append(folds, r)
+	}
 
 	for i := 0; i != -1 && len(s) >= len(substr); {
 		if strings.EqualFold(s[:substrLen], substr) {
@@ -33,7 +42,7 @@ func ContainsFold(s, substr string) (ok bool) {
 		}
 
 		i = strings.IndexFunc(s[1:], func(r rune) (eq bool) {
-			return r == first || r == firstFolded
+			return r == first || slices.Contains(folds, r)
 		})
 
 		s = s[1+i:]
